@@ -5,7 +5,8 @@ namespace GoatSpec.Drv
 open GoatSpec GoatSpec.Proto
 
 def segs (t : String) : Path :=
-  if t == "." || t == "~" then [] else (t.splitOn "/").filter (· != "")
+  -- filepath.Clean on relative slash paths without "..": empty and "." segments vanish
+  if t == "." || t == "~" then [] else (t.splitOn "/").filter (fun x => x != "" && x != ".")
 
 /-- `<skip 0|1> <n> <ignore…> <m> <nested root…>` then the rest -/
 def parsePathCfg (toks : List String) : Option (PathCfg × List String) :=
